@@ -95,9 +95,12 @@ pub(crate) fn sampled(rng: &mut Rng) -> Scenario {
     }
     // options
     if rng.bool(0.45) {
-        let mag = match rng.int(0, 4) {
+        let mag = match rng.int(0, 5) {
             0 => span * rng.uni(1.5, 10.0),
             1 => span,
+            // just short of the span: inside the solvers' 'this step is the last one' windows
+            // (1% / 0.01% stretch), where the step has to be lengthened onto xend
+            2 => span * (1.0 - rng.logu(1e-13, 5e-3)),
             _ => span * rng.logu(1e-6, 1.0),
         };
         let sign = if rng.bool(0.8) { d } else { -d };
